@@ -669,7 +669,7 @@ pub fn run(cli: &Cli) -> (Value, Vec<Violation>) {
                 }
             };
             let (scs2, p2) = (scs.clone(), plan.clone());
-            let res = vh::det::on_fresh_thread(w as u64 * 104729 + si as u64, 64 << 20, move || run_sim(execute(&scs2[si], &p2)));
+            let res = vh::det::on_fresh_thread(si as u64 + 1, 64 << 20, move || run_sim(execute(&scs2[si], &p2)));
             let plan_desc = |calls: &[CallRec]| plan.iter().map(|(i, f)| show_plan_entry(*i, &format!("{:?}", f), calls.get(*i).map(|c| format!("{} {} {:?}", c.who, c.what, c.target)).unwrap_or_default())).collect::<Vec<_>>();
             let replay = json!({"script": scs[si].name, "plan": plan.iter().map(|(i, f)| json!([i, format!("{:?}", f)])).collect::<Vec<_>>()});
             let out = match res {
